@@ -470,42 +470,45 @@ func Denotes(impl, spec *Node, al *Allow) (bool, string) {
 			}
 		}
 	case '{':
-		if len(impl.Kids) != len(spec.Kids) {
-			if al != nil && al.Surrogate {
-				// distinct keys may collide once their pairs are two U+FFFD each
-				norm := func(k string) string { b, _ := UnhexF(k); return string(fffdPairs(b)) }
-				cnt := map[string]int{}
-				for _, k := range spec.Keys {
-					cnt[norm(k)]++
+		if al != nil && al.Surrogate {
+			// match members by key modulo pairs: keys that differ only in how a surrogate pair was
+			// decoded sort differently and may even collide
+			norm := func(k string) string { b, _ := UnhexF(k); return string(fffdPairs(b)) }
+			cnt := map[string]int{}
+			for _, k := range spec.Keys {
+				cnt[norm(k)]++
+			}
+			implIdx := map[string]int{}
+			for i, k := range impl.Keys {
+				implIdx[norm(k)] = i
+			}
+			if len(cnt) != len(implIdx) || len(implIdx) != len(impl.Keys) {
+				return false, "shape: member count differs"
+			}
+			for i, k := range spec.Keys {
+				j, ok := implIdx[norm(k)]
+				if !ok {
+					return false, "key-differs: member names differ"
 				}
-				implIdx := map[string]int{}
-				for i, k := range impl.Keys {
-					implIdx[norm(k)] = i
-				}
-				if len(cnt) == len(implIdx) && len(implIdx) == len(impl.Keys) {
-					for i, k := range spec.Keys {
-						j, ok := implIdx[norm(k)]
-						if !ok {
-							return false, "shape: member count differs"
-						}
-						if cnt[norm(k)] == 1 {
-							if ok, why := Denotes(impl.Kids[j], spec.Kids[i], al); !ok {
-								return false, why
-							}
-						}
-					}
+				if impl.Keys[j] != k {
 					al.used = "C02-surrogate"
-					return true, ""
+				}
+				if cnt[norm(k)] == 1 {
+					if ok, why := Denotes(impl.Kids[j], spec.Kids[i], al); !ok {
+						return false, why
+					}
+				} else {
+					al.used = "C02-surrogate" // collided members: last wins, values not compared
 				}
 			}
+			return true, ""
+		}
+		if len(impl.Kids) != len(spec.Kids) {
 			return false, "shape: member count differs"
 		}
 		for i := range spec.Kids {
 			if impl.Keys[i] != spec.Keys[i] {
-				if !(al != nil && al.Surrogate && sameModuloPairs(impl.Keys[i], spec.Keys[i])) {
-					return false, "key-differs: member names differ"
-				}
-				al.used = "C02-surrogate"
+				return false, "key-differs: member names differ"
 			}
 			if ok, why := Denotes(impl.Kids[i], spec.Kids[i], al); !ok {
 				return false, why
